@@ -10,8 +10,11 @@ Local Open Scope Z_scope.
 Record obs := mkObs { oop : op; oout : out; odump : list (option (list (option (nat * Z)))) }.
 
 Inductive case :=
-| COps (reg0 nscopes : nat) (steps : list obs)
-    (* registry size and number of (zero-valued) scopes at the start, then the steps *)
+| COps (blind : bool) (reg0 nscopes : nat) (steps : list obs)
+    (* registry size and number of (zero-valued) scopes at the start, then the steps.
+       blind = the harness could not read the scopes' storage directly (its layout
+       changed) and dumped them through GobEncode instead: presence and values only,
+       identities meaningless (the metric index), nil storage never seen *)
 | CE2E (bigmachine : bool) (reg : nat)
        (tasks : list (list (nat * Z)))   (* increments logged per task scope (sorted) *)
        (expected : list (nat * Z))       (* increments the program must perform on its input *)
@@ -51,18 +54,6 @@ Definition dump_eqb (a b : list (option (list (option (nat * Z))))) : bool :=
 
 (* ---- exact agreement: the model run from [init] predicts every output and
         every scope (structure, values, sharing) after every step ---- *)
-Fixpoint run_exact (w : world) (c : list obs) : bool :=
-  match c with
-  | [] => true
-  | ob :: rest =>
-      let '(w', o') := step w (oop ob) in
-      out_eqb o' (oout ob) && dump_eqb (dump w') (odump ob) && run_exact w' rest
-  end.
-
-(* ---- property-level judgement of one observed step, from the OBSERVED
-        pre-state, on values only ---- *)
-Notation odumpT := (list (option (list (option (nat * Z))))) (only parsing).
-
 Definition dval (d : list (option (list (option (nat * Z))))) (i m : nat) : Z :=
   match nth i d None with
   | Some l => match nth m l None with Some (_, z) => z | None => 0 end
@@ -73,14 +64,50 @@ Definition did (d : list (option (list (option (nat * Z))))) (i m : nat) : optio
   | Some l => match nth m l None with Some (p, _) => Some p | None => None end
   | None => None
   end.
+Definition all_metrics (reg : nat) (f : nat -> bool) : bool := forallb f (seq 0 reg).
+Definition all_cells (reg ns : nat) (f : nat -> nat -> bool) : bool :=
+  forallb (fun i => forallb (f i) (seq 0 reg)) (seq 0 ns).
+
+(* blind dumps: which cells hold an instance, and the values *)
+Definition blind_eqb (reg : nat) (a b : list (option (list (option (nat * Z))))) : bool :=
+  Nat.eqb (length a) (length b)
+  && all_cells reg (length a) (fun i m =>
+       option_eqb (fun _ _ => true) (did a i m) (did b i m) && Z.eqb (dval a i m) (dval b i m)).
+
+(* A panic (only possible when a scope's list is shorter than the registry, which
+   the property excludes) leaves the scopes involved half-updated, in an order
+   that depends on the iteration order of the Go loops.  The harness resets the
+   scopes involved to nil right after a panic, before dumping; so does the model. *)
+Definition op_scopes (o : op) : list nat :=
+  match o with
+  | ORegister => []
+  | OIncr s _ _ | OValue s _ | OResetNil s | OEncode s | ODecode _ s => [s]
+  | OMerge s u | OReset s u => [s; u]
+  end.
+
+Definition step_c (w : world) (o : op) : world * out :=
+  let '(w1, r) := step w o in
+  match r with
+  | RPanic => (fold_left reset_nil (op_scopes o) w1, RPanic)
+  | _ => (w1, r)
+  end.
+
+Fixpoint run_exact (blind : bool) (w : world) (c : list obs) : bool :=
+  match c with
+  | [] => true
+  | ob :: rest =>
+      let '(w', o') := step_c w (oop ob) in
+      out_eqb o' (oout ob)
+      && (if blind then blind_eqb (wreg w') (dump w') (odump ob) else dump_eqb (dump w') (odump ob))
+      && run_exact blind w' rest
+  end.
+
+(* ---- property-level judgement of one observed step, from the OBSERVED
+        pre-state, on values only ---- *)
 (* the scope's list covers the whole registry (always true when every counter
    was registered before the scope was first used, or since its last Reset(nil)) *)
 Definition adequate (reg : nat) (d : list (option (list (option (nat * Z))))) (i : nat) : bool :=
   match nth i d None with None => true | Some l => (reg <=? length l)%nat end.
-
-Definition all_metrics (reg : nat) (f : nat -> bool) : bool := forallb f (seq 0 reg).
-Definition all_cells (reg ns : nat) (f : nat -> nat -> bool) : bool :=
-  forallb (fun i => forallb (f i) (seq 0 reg)) (seq 0 ns).
 
 Definition is_unit (o : out) : bool := match o with RUnit => true | _ => false end.
 
@@ -165,13 +192,13 @@ Definition e2e_ok (reg : nat) (expected : list (nat * Z)) (observed : list Z) : 
 
 Definition case_exact (c : case) : bool :=
   match c with
-  | COps reg0 ns steps => run_exact (init reg0 ns) steps
+  | COps blind reg0 ns steps => run_exact blind (init reg0 ns) steps
   | CE2E bigm reg tasks expected observed => e2e_exact bigm reg tasks expected observed
   end.
 
 Definition case_ok (c : case) : bool :=
   match c with
-  | COps reg0 ns steps => run_ok reg0 (repeat None ns) steps
+  | COps _ reg0 ns steps => run_ok reg0 (repeat None ns) steps
   | CE2E _ reg _ expected observed => e2e_ok reg expected observed
   end.
 
